@@ -591,3 +591,49 @@ func HeaderID(h types.BlockHeader) types.BlockID {
 	w.Header(h)
 	return types.BlockID(w.Hash())
 }
+
+// ---- consensus.State layout (fields passed in to keep this package free of the library's codecs) ----
+
+// StateFields is the public content of a consensus state.
+type StateFields struct {
+	Index                types.ChainIndex
+	Timestamps           []time.Time // newest first, min(height+1, 11) entries
+	Depth, ChildTarget   types.BlockID
+	TaxRevenue           types.Currency
+	OakTime              time.Duration
+	OakTarget            types.BlockID
+	FoundationSubsidy    types.Address
+	FoundationManagement types.Address
+	TotalWork            [32]byte
+	Difficulty           [32]byte
+	OakWork              [32]byte
+	NumLeaves            uint64
+	Trees                [64]types.Hash256
+	Attestations         uint64
+}
+
+// State is the wire form of a consensus state.
+func (w *W) State(s StateFields) {
+	w.U64(s.Index.Height)
+	w.Raw(s.Index.ID[:])
+	for _, t := range s.Timestamps {
+		w.Time(t)
+	}
+	w.Raw(s.Depth[:])
+	w.Raw(s.ChildTarget[:])
+	w.CurV2(s.TaxRevenue)
+	w.U64(uint64(s.OakTime))
+	w.Raw(s.OakTarget[:])
+	w.Raw(s.FoundationSubsidy[:])
+	w.Raw(s.FoundationManagement[:])
+	w.Raw(s.TotalWork[:])
+	w.Raw(s.Difficulty[:])
+	w.Raw(s.OakWork[:])
+	w.U64(s.NumLeaves)
+	for h := 0; h < 64; h++ {
+		if s.NumLeaves&(1<<h) != 0 {
+			w.Raw(s.Trees[h][:])
+		}
+	}
+	w.U64(s.Attestations)
+}
